@@ -2,8 +2,8 @@
 (* Implementation-shaped model of the awc connection pool and HTTP/1 exchange               *)
 (* (awc/src/client/pool.rs: permits, idle queue, ConnectionCheckFuture Live/Tainted/Skip;   *)
 (* h1proto.rs PlStream: release on the end-of-body item only).  Exchanges end completely,   *)
-(* are cut by the server, carry extra bytes, say connection: close, or are dropped early by *)
-(* the application.  Checked: in-use connections never exceed the limit, a connection with  *)
+(* are cut by the server (in the body, or already in the head: "hcut"), carry extra bytes,  *)
+(* say connection: close, or are dropped early by the application.  Checked: in-use connections never exceed the limit, a connection with  *)
 (* unread bytes or an unfinished exchange is never handed out again.                        *)
 (* DEV_EofIsCleanEnd mirrors PlStream treating connection EOF as a clean end of body.        *)
 EXTENDS Integers, Sequences, FiniteSets, TLC, Json
@@ -36,7 +36,8 @@ Finish(x) ==
        LET c == served[x] IN
        /\ hist' = Append(hist, [x |-> x, how |-> how])
        /\ outcome' = [outcome EXCEPT ![x] = CASE how = "complete" -> "ok" [] how = "close-header" -> "ok" [] how = "extra" -> "ok"
-                                                 [] how = "cut" -> (IF DEV_EofIsCleanEnd THEN "ok-short" ELSE "err") [] how = "drop" -> "dropped"]
+                                                 [] how = "cut" -> (IF DEV_EofIsCleanEnd THEN "ok-short" ELSE "err") [] how = "drop" -> "dropped"
+                                                 [] how = "hcut" -> "err"]
        /\ conns' = [conns EXCEPT ![c] = CASE how = "complete" -> [st |-> "idle", dirty |-> FALSE]
                                           [] how = "extra" -> [st |-> "idle", dirty |-> TRUE]
                                           [] OTHER -> [st |-> "closed", dirty |-> FALSE]]
